@@ -723,6 +723,7 @@ func loaderEnum(tr *hx.Trace, sc *scenario, data []byte, stride int, r *hx.Rng, 
 					entries++
 				}
 			case <-tick.C:
+				wd.Kick("loader enumeration (slow parse)")
 				if rb.Load() == lastRb && entries == lastEntries {
 					idle++
 				} else {
